@@ -1,5 +1,5 @@
 """C10 — results do not depend on CPU features, selected backend or build configuration (DESIGN §3.10)."""
-import importlib, json, os, random, subprocess
+import importlib, json, os, random, subprocess, time
 import vcore
 import re
 import c2lean_pickers
@@ -15,13 +15,30 @@ THEOREMS = THEOREMS + vcore.theorems_in("SodiumModel/Properties/C10Fe25.lean", [
 # Poly1305 of the same build (donna32, for 32- and 64-bit `unsigned long`) = spec = donna64; the byte-shift load / store fallbacks of common.h (builds without NATIVE_LITTLE_ENDIAN) = the memcpy forms
 THEOREMS = THEOREMS + vcore.theorems_in("SodiumModel/Properties/C10Donna32.lean", ['wok64', 'wok32', 'init_spec32', 'init_inv32', 'blocks_spec32', 'blocks_no_overflow32', 'blocks_width_indep', 'finish_spec32', 'donna32_eq_abstract', 'donna32_mac_eq_specW', 'donna32_mac_eq_spec', 'donna32_mac_oneshot', 'donna32_ilp32_mac_eq_spec', 'donna32_lp64_eq_ilp32', 'donna32_eq_donna64', 'load64_le_shift_eq', 'store64_le_shift_eq', 'load32_le_shift_eq', 'store32_le_shift_eq', 'store64_be_shift_eq', 'store32_be_shift_eq', 'load64_be_shift_eq', 'load32_be_shift_eq', 'load32_be_short_differs', 'load64_le_shift_val', 'load32_le_shift_val', 'load64_be_shift_val', 'load32_be_shift_val', 'store64_le_shift_val', 'store32_le_shift_val', 'store64_be_shift_val', 'store32_be_shift_val', 'load64_le_store64_le', 'load32_be_store32_be', 'donna32_LOAD32_LE_shift', 'donna64_LOAD64_LE_shift', 'store32_shift', 'store64_shift', 'siphash_load64le_shift', 'chacha_load32le_shift', 'chacha_store32le_shift'], "Sodium.C10Donna32")
 IMPORTS = IMPORTS + ["SodiumModel.Properties.C10Donna32"]
+# AEGIS-128L / AEGIS-256 on the two AES backends: the generic *_common.h code instantiated with the AES-NI intrinsics and with the table-based software AES are both modelled in the
+# C's structure and proved equal to the specification, hence to each other, for EVERY message / AD length below 2^61 (the length block's two 64-bit bit-lengths included:
+# *_load64x2_order). C10's "same bytes whichever backend is selected" for AEGIS rests on these theorems at the lengths no run can afford (the upper halves of the bit lengths are
+# non-zero only from 512 MiB on), so they are audited here too and the source text they were transcribed from is pinned for this check as well (FINGERPRINTS below).
+THEOREMS = THEOREMS + vcore.theorems_in("SodiumModel/Properties/C01Aegis.lean", ['soft_backend_ok', 'softaes_block_encrypt_is_aes_round', 'softaes_load_store', 'softaes_load64x2_order',
+                                        'aegis128l_mac_eq', 'aegis256_mac_eq', 'aegis128l_encrypt_detached_generic', 'aegis256_encrypt_detached_generic',
+                                        'crypto_aead_aegis128l_encrypt_detached_eq', 'crypto_aead_aegis256_encrypt_detached_eq',
+                                        'crypto_aead_aegis128l_decrypt_detached_eq', 'crypto_aead_aegis256_decrypt_detached_eq'], "Sodium.C01Aegis")
+THEOREMS = THEOREMS + vcore.theorems_in("SodiumModel/Properties/C01AegisAesni.lean", ['aesni_backend_ok', 'mm_aesenc_is_aes_round', 'aesni_load64x2_order', 'aesenc_eq_softaes',
+                                        'crypto_aead_aegis128l_aesni_encrypt_detached_eq', 'crypto_aead_aegis256_aesni_encrypt_detached_eq',
+                                        'crypto_aead_aegis128l_aesni_decrypt_detached_eq', 'crypto_aead_aegis256_aesni_decrypt_detached_eq',
+                                        'aesni_eq_soft_128L', 'aesni_eq_soft_256', 'aesni_eq_soft', 'aesni_eq_soft_decrypt'], "Sodium.C01AegisAesni")
+IMPORTS = IMPORTS + ["SodiumModel.Properties.C01Aegis", "SodiumModel.Properties.C01AegisAesni"]
 tie_b = lambda ctx: tie_b_fe25(ctx)
-FINGERPRINTS = "C10"
+FINGERPRINTS = "C10,C01"     # Tie B: C10's own pinned bodies (25.5-bit field code, donna32, common.h loads) AND the AEGIS / softaes / AES-NI / AES-256-GCM files the C01 backend models were transcribed from
 RULE = ("(1) decoder co-simulation, exhaustive: all 2^18 combinations of the relevant CPUID/XCR0 bits through hook H2 against the Lean decoder, in the native build "
         "(XGETBV available) and the no-asm build (XCR0 unreadable); (2) Tie B: the picker decision lists and per-implementation target sets are regenerated from the source "
         "for every build variant and the kernel checks selection soundness over all 1024 feature sets; (3) reported flags with no mask are a subset of /proc/cpuinfo; "
         "(4) one shared deterministic corpus (sub-sampled op families of C01, C03, C04, C09, C14, C15, C16, C18) run on every configuration: 8 masks x native (+ 3 other "
-        "variants in quick; 4 variants x 8 masks in thorough); every configuration's outputs must equal the model's; aes256gcm availability must equal pclmul & aesni & avx")
+        "variants in quick; 4 variants x 8 masks in thorough); every configuration's outputs must equal the model's; aes256gcm availability must equal pclmul & aesni & avx; "
+        "(5) long operands, implementation against implementation: AEGIS-128L / AEGIS-256 with a zero-filled AD or message built inside the harness (2^20 bytes in quick; 2^29, 2^29 + 33 bytes of AD "
+        "and 2^29 + 17 bytes of message in thorough, where the upper halves of the 64-bit bit lengths differ), sealed under no mask (AES-NI), under the all-off mask and in the portable build "
+        "(software AES): identical ciphertext and tag, and each side opens what the other sealed; for all lengths the two backends are proved equal (C01Aegis / C01AegisAesni, audited here) "
+        "and the source text those models transcribe is pinned (Tie B fingerprints of the C01 group)")
 ASSUMPTIONS = ["assembly implementations (sandy2x: AVX; xmm6 Salsa20: x86-64 baseline) have their ISA requirement stated by hand in tools/c2lean_pickers.py",
                "architectural closure of feature sets (avx512f -> avx2 -> avx -> sse4.1 -> ssse3 -> sse3 -> sse2, aesni/pclmul -> sse2) is a hypothesis of selection soundness",
                "32-bit and big-endian targets are reached only as source paths (noti / portable variants) on this x86-64 host"]
@@ -79,7 +96,140 @@ def gen(ctx, tier, rng):
     return lines
 
 
+# ---- (5) long-length cross-backend runs: implementation against implementation
+LONG_REF = ("native", "")       # AES-NI backend (when the CPU has it; otherwise the comparison degenerates to software vs software and says so in the evidence)
+
+
+def long_others():
+    return [("native", vcore.ALL_OFF), ("portable", "")]      # software AES selected at run time / the only backend compiled in
+
+
+def long_cases(tier, rng):
+    """op lines whose long operand (zero-filled) is built inside the harness. The AEGIS length block carries the two 64-bit BIT lengths, whose upper 32-bit halves are non-zero
+    only from 2^29 bytes on; the two operands get different upper halves (one long, one short), first the AD then the message. Quick tier: 2^20 only (keeps the ops, the three
+    phases and the comparison exercised at no cost); thorough: 2^29 and 2^29 + 33 bytes of AD with a 77-byte message, and 2^29 + 17 bytes of message with a short AD."""
+    big = tier != "quick"
+    adls = [1 << 20] + ([1 << 29, (1 << 29) + 33] if big else [])
+    mls = [(1 << 20) + 5] + ([(1 << 29) + 17] if big else [])
+    rb = lambda n: bytes(rng.getrandbits(8) for _ in range(n))
+    L = []
+    for (v, kb, nb) in (("128l", 16, 16), ("256", 32, 32)):
+        for adl in adls:
+            L.append("aegis.longad %s %d %s %s %s" % (v, adl, vcore.hexs(rb(kb)), vcore.hexs(rb(nb)), vcore.hexs(rb(77))))
+        for ml in mls:
+            L.append("aegis.longmsg %s %d %s %s %s" % (v, ml, vcore.hexs(rb(kb)), vcore.hexs(rb(nb)), vcore.hexs(rb(rng.choice([0, 13, 45])))))
+    return L
+
+
+def long_followup(line, enc_out):
+    """(op line, expected output) of the decryption of what `enc_out` (the answer to `line` of some backend) sealed; None if that answer is not a sealed result"""
+    f = enc_out.split(" ")
+    if len(f) != 3 or f[0] != "0" or len(f[2]) != 64:
+        return None
+    if line.startswith("aegis.longad "):
+        return ("%s %s %s" % (line, f[1], f[2]), "0 " + line.split(" ")[5])
+    return ("%s %s" % (line, f[2]), enc_out + " 0 1")
+
+
+def long_run(ctx, cfg, line):
+    out, cr = vcore.run_impl(ctx, vcore.build_hx(ctx, cfg[0]), [line], cfg[1], timeout=14400)
+    return out[0] if out and not cr else "CRASH %s" % json.dumps(cr)
+
+
+LONG_MAX_REPORT = 3
+
+
+def long_report(ctx, line, cfg, got, want, what, ref=LONG_REF):
+    ctx.stats["long_mismatch_list"] = ctx.stats.get("long_mismatch_list", []) + [[" ".join(line.split(" ")[:3]), cfg[0], cfg[1] or "none", what]]
+    if len(ctx.stats["long_mismatch_list"]) > LONG_MAX_REPORT:      # the rest are the same disagreement seen from the other call forms / configurations: listed in the evidence only
+        return
+    vcore.report(ctx, "long:" + line.split(" ")[0], {"op": line, "variant": cfg[0], "mask": cfg[1], "flavour": "plain", "impl": got[:400], "expected": want[:400],
+                                                    "reference_variant": ref[0], "reference_mask": ref[1], "what": what,
+                                                    "explanation": "the same call gives different results depending on the AES backend in use (no mask: AES-NI when the CPU has it; all-off mask "
+                                                                   "or portable build: software AES); the long operand is built by the harness (zero bytes), see harness/ops_c10.c"})
+
+
+def long_cross(ctx, rng):
+    from concurrent.futures import ThreadPoolExecutor
+    t0 = time.time()
+    cases = long_cases(ctx.tier, rng)
+    others = long_others()
+    for v in sorted(set(c[0] for c in [LONG_REF] + others)):
+        vcore.build_hx(ctx, v)
+    bad = 0
+    with ThreadPoolExecutor(max_workers=14) as ex:
+        ref_out = list(ex.map(lambda l: long_run(ctx, LONG_REF, l), cases))
+        # phase 2: every other backend seals the same input, and opens what the reference backend sealed
+        jobs = []
+        for line, ro in zip(cases, ref_out):
+            fu = long_followup(line, ro)
+            if fu is None:
+                long_report(ctx, line, LONG_REF, ro, "0 <ciphertext or digest> <32-byte tag>", "the reference configuration does not seal this input"); bad += 1
+                continue
+            for cfg in others:
+                if line.startswith("aegis.longad "):
+                    jobs.append((cfg, line, ro, "sealing"))
+                jobs.append((cfg, fu[0], fu[1], "sealing, then opening what the reference configuration sealed" if line.startswith("aegis.longmsg ") else "opening what the reference configuration sealed"))
+        outs = list(ex.map(lambda j: long_run(ctx, j[0], j[1]), jobs))
+        back = {}
+        for line, ro in zip(cases, ref_out):
+            if long_followup(line, ro) is not None:
+                back.setdefault(long_followup(line, ro), LONG_REF)
+        for (cfg, line, want, what), got in zip(jobs, outs):
+            if got != want:
+                long_report(ctx, line, cfg, got, want, what); bad += 1
+            # phase 3: the reference backend opens what this backend sealed (only informative when it differs from what the reference sealed itself)
+            base = " ".join(line.split(" ")[:6])
+            sealed = " ".join(got.split(" ")[:3])
+            if what.startswith("sealing") and long_followup(base, sealed) is not None:
+                back.setdefault(long_followup(base, sealed), cfg)
+        items = list(back.items())
+        outs3 = list(ex.map(lambda it: long_run(ctx, LONG_REF, it[0][0]), items))
+        for ((line, want), src), got in zip(items, outs3):
+            if got != want:
+                long_report(ctx, line, LONG_REF, got, want, "opening what %s/%s sealed" % (src[0], src[1] or "none"), ref=src); bad += 1
+    n = len(cases) + len(jobs) + len(items)
+    ctx.evaluations += n
+    fl, _ = vcore.run_impl(ctx, vcore.build_hx(ctx, "native"), ["rt.flags"], "")
+    ctx.stats["long_length_cross_backend"] = {"cases": len(cases), "runs": n, "mismatches": bad, "max_operand_bytes": max(int(l.split(" ")[2]) for l in cases),
+                                              "reference_has_aesni": bool(fl and "aesni=1" in fl[0]), "wall_s": round(time.time() - t0, 1), "sample": cases[0][:200]}
+    ctx.log("long-length cross-backend: %d cases, %d runs (operands up to %d bytes), %d mismatches, %.1fs" % (len(cases), n, ctx.stats["long_length_cross_backend"]["max_operand_bytes"], bad, time.time() - t0))
+
+
+def replay(ctx, r):
+    line = r["op"]
+    cfg = (r.get("variant", "native"), r.get("mask", ""), r.get("flavour", "plain"))
+    if line.startswith("aegis.long"):
+        # implementation against implementation: the recorded line on the recorded configuration must give what it gives on the reference configuration
+        nf = len(line.split(" "))
+        sealing = nf == 6
+        ref = (r.get("reference_variant", LONG_REF[0]), r.get("reference_mask", LONG_REF[1]))
+        got = long_run(ctx, cfg, line)
+        if sealing:
+            want = long_run(ctx, ref, line)
+        else:       # an opening line: the expected answer is determined by the line itself (the message is on the line / all-zero)
+            base = " ".join(line.split(" ")[:6])
+            want = ("0 " + line.split(" ")[5]) if line.startswith("aegis.longad ") else None
+            if want is None:
+                want = " ".join(long_run(ctx, ref, base).split(" ")[:3]) + " 0 1"
+        print("op       :", line[:300]); print("expected :", want[:300]); print("impl     :", got[:300], "(%s mask=%s)" % (cfg[0], cfg[1] or "none"))
+        if got != want:
+            print("VIOLATION property=%s replay=%s" % (ctx.prop, r.get("replay_cmd", "").split(" ")[-1]))
+            return 1
+        print("no disagreement on the current tree")
+        return 0
+    m = vcore.run_model(ctx, [line])[0]
+    i, crashed = vcore.run_impl(ctx, vcore.build_hx(ctx, cfg[0], cfg[2]), [line], cfg[1], r.get("env") or None)
+    print("op    :", line); print("model :", m); print("impl  :", i[0] if i else crashed)
+    if not i or i[0] != m:
+        print("VIOLATION property=%s replay=%s" % (ctx.prop, r.get("replay_cmd", "").split(" ")[-1]))
+        return 1
+    print("no disagreement on the current tree")
+    return 0
+
+
 def extra(ctx, rng):
+    long_cross(ctx, rng)
     # ---- (2) Tie B: pickers
     gen_path = os.path.join(vcore.LEAN, "Generated", "Pickers.lean")
     tables = {}
